@@ -536,7 +536,7 @@ def run_c15(ctx):
     import subprocess
     rc = run_env_property(ctx, "Properties/C15.v")
     q = ctx.tier == "quick"
-    cmd = [common.DRIVE, "shuffle-stats", "--small", "200000" if q else "1000000", "--large", "20000" if q else "100000", "--seed", str(ctx.seed)]
+    cmd = [common.DRIVE, "shuffle-stats", "--small", "200000" if q else "600000", "--large", "20000" if q else "60000", "--seed", str(ctx.seed)]
     out = subprocess.run(cmd, env=common.ENV, stdout=subprocess.PIPE, text=True).stdout
     fails = [l[9:] for l in out.splitlines() if l.startswith("STATFAIL ")]
     stats = [l[6:] for l in out.splitlines() if l.startswith("STATS ")]
